@@ -317,15 +317,21 @@ func (w *Writer) alignArray(n *node, t *table, comma, cs []byte) {
 	} else {
 		w.buf = append(w.buf, '[')
 	}
-	for k, col := range t.columns {
-		if len(n.members) <= k {
-			break
-		}
+	for k, m := range n.members {
 		if 0 < k {
 			w.buf = append(w.buf, comma...)
 			w.buf = append(w.buf, ' ')
 		}
-		m := n.members[k]
+		// Pick the column for position k. If another row has a map at the
+		// same place the table also has string keyed columns so the
+		// position in t.columns is not the position in the array.
+		col := &table{}
+		for _, c := range t.columns {
+			if ck, ok := c.key.(int); ok && ck == k {
+				col = c
+				break
+			}
+		}
 		cw := col.size
 		switch m.kind {
 		case strNode:
@@ -363,7 +369,11 @@ func (w *Writer) alignMap(n *node, t *table, comma, cs []byte) {
 	}
 	prevExist := false
 	for i, col := range t.columns {
-		k, _ := col.key.(string)
+		k, ok := col.key.(string)
+		if !ok {
+			// A column of an array that is in the same place in another row.
+			continue
+		}
 		var m *node
 		for _, mm := range n.members {
 			if string(mm.key) == k {
